@@ -614,3 +614,22 @@ mutant('C01-R3-poll-data-drops-trailers', ['C01'], ['C01.R3|reader|proto::stream
 ''', '''                // Frame is trailer
                 let _ = event;
 ''')])
+
+# ---------------------------------------------------------------- C08.R3
+mutant('C08-R3-reset-length-check-dropped', ['C08', 'C12'], ['C08.R3|unreviewed|frame::reset::Reset::load'],
+       'Reset::load no longer checks the payload length: a short RST_STREAM panics the connection task',
+       [('src/frame/reset.rs', '''        if payload.len() != 4 {
+            return Err(Error::InvalidPayloadLength);
+        }
+''', '''''')])
+mutant('C08-R3-goaway-length-check-weakened', ['C08'], ['C08.R3|unreviewed|frame::go_away::GoAway::load'],
+       'GoAway::load accepts payloads of 4..8 bytes: indexing the error code panics',
+       [('src/frame/go_away.rs', '''        if payload.len() < 8 {''', '''        if payload.len() < 4 {''')])
+mutant('C08-R3-padding-check-off-by-one', ['C08'], ['C08.R3|unreviewed|frame::util::strip_padding'],
+       'strip_padding accepts pad_len == payload_len: payload_len - pad_len - 1 underflows',
+       [('src/frame/util.rs', '''    if pad_len >= payload_len {''', '''    if pad_len > payload_len {''')])
+mutant('C08-R3-new-unwrap-on-peer-data', ['C08'], ['C08.R3|unreviewed|frame::window_update::WindowUpdate::load'],
+       'WindowUpdate::load unwraps a conversion of peer data',
+       [('src/frame/window_update.rs', '''        if size_increment == 0 {
+            return Err(Error::InvalidWindowUpdateValue);
+        }''', '''        let size_increment = std::num::NonZeroU32::new(size_increment).unwrap().get();''')])
